@@ -1,12 +1,71 @@
 (** Property C12 - output numbering is canonical and results depend on the input alone.
-    Only statements closed by [exact]; proofs in Resolve/SortProofs.v. *)
+    Only statements closed by [exact]; proofs in Resolve/SortProofs.v and Resolve/VirtualProofs.v. *)
 From Coq Require Import String.
-From Coq Require Import List Ascii ZArith Bool Lia.
+From Coq Require Import List Ascii ZArith Bool Lia Sorting.Sorted Sorting.Permutation.
 From CGV Require Import Base.PyBase Base.PyVal Base.NxGraph Resolve.Bonding Resolve.GraphOps Resolve.Pipeline
-     Resolve.MapDefs Resolve.Witness.
+     Resolve.MapDefs Resolve.Witness Resolve.SortProofs Resolve.VirtualProofs.
 Import ListNotations.
 Open Scope Z_scope.
 
+(** ---- sort_nodes_by_attr: mapping old key -> new key *)
+(** sort_keys: the new keys are 0..n-1, given to a permutation of the old keys carrying 'fragid' *)
+Theorem C12_sort_keys : forall (g : graph) (m : list (Z * Z)), sort_mapping g = Ok m ->
+  map snd m = map Z.of_nat (seq 0 (length m)) /\
+  Permutation (map fst m) (map fst (get_node_attributes g (S "fragid"))).
+Proof. exact sort_keys. Qed.
+(** sort_perm / sort_sorted: [isort] returns a permutation, strictly ascending in (fragid, old key) when the
+    old keys are distinct, and it is the ONLY such list - so Python's `sorted` returns it too *)
+Theorem C12_sort_perm : forall l, Permutation (isort l) l.
+Proof. exact isort_perm. Qed.
+Theorem C12_sort_sorted : forall g ks, sort_items g = Ok ks -> NoDup (map snd ks) ->
+  StronglySorted key_lt (isort ks) /\ Permutation (isort ks) ks /\
+  (forall l', Permutation l' ks -> StronglySorted key_lt l' -> l' = isort ks).
+Proof. exact sort_sorted. Qed.
+(** the comparison is Python's: lists lexicographically, then the old key; a strict total order *)
+Theorem C12_key_total : forall a b, a <> b -> key_lt a b \/ key_lt b a.
+Proof. exact key_total. Qed.
+Theorem C12_key_trans : forall a b c, key_lt a b -> key_lt b c -> key_lt a c.
+Proof. exact key_lt_trans. Qed.
+(** block_contiguous: nodes with the same membership list occupy one interval of new keys ... *)
+Theorem C12_block_contiguous : forall l, StronglySorted key_lt l ->
+  forall i j k d c, (i <= j)%nat -> (j <= k)%nat -> (k < length l)%nat ->
+    fst (nth i l d) = c -> fst (nth k l d) = c -> fst (nth j l d) = c.
+Proof. exact block_contiguous. Qed.
+(** ... and without shared atoms the intervals come in coarse-key order *)
+Theorem C12_block_order : forall l, StronglySorted key_lt l ->
+  forall i j d c c', (i <= j)%nat -> (j < length l)%nat -> fst (nth i l d) = [c] -> fst (nth j l d) = [c'] -> c <= c'.
+Proof. exact block_order. Qed.
 Example C12_sort_example : isort [([1], 5); ([0; 1], 7); ([0], 9); ([0], 2)] = [([0], 2); ([0], 9); ([0; 1], 7); ([1], 5)].
 Proof. reflexivity. Qed.
-Print Assumptions C12_sort_example.
+
+(** ---- input-only dependence *)
+(** frag_order_irrelevant: the order of the definitions in a fragment block with unique names is immaterial
+    for every lookup, hence for the whole resolution step *)
+Theorem C12_frag_order_irrelevant : forall d d', Permutation d d' -> NoDup (map fst d) -> forall name, fd_get name d = fd_get name d'.
+Proof. exact frag_order_irrelevant. Qed.
+Theorem C12_step_frag_order : forall legacy aa d d' prev tr,
+  Permutation d d' -> NoDup (map fst d) -> resolve_step legacy aa d prev tr = resolve_step legacy aa d' prev tr.
+Proof. exact resolve_step_frag_order. Qed.
+(** ctor_agree: the three constructors build the same state from corresponding inputs *)
+Theorem C12_ctor_agree : forall read_cgsmiles read_fragments s e0 rest mol ds laa legacy frs bs,
+  find_blocks s = e0 :: rest -> read_cgsmiles e0 = Ok mol ->
+  read_fragment_strings read_fragments rest laa = Ok ds ->
+  find_blocks frs = rest -> forallb (fun n => ahas (S "fragname") (na n)) mol = true ->
+  find_blocks bs = [e0] ->
+  from_string read_cgsmiles read_fragments s laa legacy = Ok (init mol ds laa legacy) /\
+  from_graph read_fragments frs mol laa legacy = Ok (init mol ds laa legacy) /\
+  from_fragment_dicts read_cgsmiles bs ds laa legacy = Ok (init mol ds laa legacy).
+Proof. exact ctor_agree. Qed.
+Example C12_find_blocks_example :
+  find_blocks (S "{[#A][#B]}.{#A=[$]CC,#B=[$]O}") = [S "{[#A][#B]}"; S "{#A=[$]CC,#B=[$]O}"].
+Proof. vm_compute. reflexivity. Qed.
+(** the resolver object is one-shot: a second resolve_all on it runs out of dictionaries (IndexError) *)
+Theorem C12_resolve_exhausted : forall st tr, st_counter st = length (st_dicts st) -> resolve st tr = Err EIndex.
+Proof. exact resolve_exhausted. Qed.
+
+Print Assumptions C12_sort_keys.
+Print Assumptions C12_sort_sorted.
+Print Assumptions C12_block_contiguous.
+Print Assumptions C12_block_order.
+Print Assumptions C12_step_frag_order.
+Print Assumptions C12_ctor_agree.
